@@ -140,20 +140,19 @@ def extract_default(
         try:
             lit = literal_eval(default)
         except (ValueError, SyntaxError):
-            if typ != "str":
-                raise
-            lit = default  # an unquoted string is not a Python literal: it is the value as it stands
-        default = (
-            "```{}```".format(lit)
-            if isinstance(default, ast.AST)
-            else {
-                "bool": bool,
-                "int": int,
-                "float": float,
-                "complex": complex,
-                "str": str,
-            }[typ](lit)
-        )
+            pass  # not a Python literal - an unquoted string, an expression: it is the value as it stands
+        else:
+            default = (
+                "```{}```".format(lit)
+                if isinstance(default, ast.AST)
+                else {
+                    "bool": bool,
+                    "int": int,
+                    "float": float,
+                    "complex": complex,
+                    "str": str,
+                }[typ](lit)
+            )
     elif default in frozenset(("True", "False")):
         default = literal_eval(default)
     else:
